@@ -39,13 +39,19 @@ Proof.
   exact (conj err_is_rejection (conj not_dict_rejected (conj no_version_rejected unknown_version_rejected))).
 Qed.
 
+Lemma accepted_meets_rules c :
+  check_valid c = Ok tt -> wf_domain c = true -> valid_spec c = true.
+Proof. intros H Hwf. apply (check_valid_iff_spec c Hwf). exact H. Qed.
+
 Lemma gate_thm :
   (forall (parse : str -> res jv) s c,
-     from_json parse s = Ok c -> parse s = Ok c /\ check_valid c = Ok tt) /\
-  (forall c c', from_runtime_repr c = Ok c' -> c' = c /\ check_valid c = Ok tt) /\
+     from_json parse s = Ok c ->
+     parse s = Ok c /\ check_valid c = Ok tt /\ (wf_domain c = true -> valid_spec c = true)) /\
+  (forall c c', from_runtime_repr c = Ok c' ->
+     c' = c /\ check_valid c = Ok tt /\ (wf_domain c = true -> valid_spec c = true)) /\
   (forall exts make_empty empty i c,
      wrapper_init exts make_empty empty = Ok (i, c) ->
-     check_valid c = Ok tt /\
+     check_valid c = Ok tt /\ (wf_domain c = true -> valid_spec c = true) /\
      match i with
      | Some n => nth_error exts n = Some (dcm_meta_ecode, c)
      | None => make_empty = true /\ c = empty
@@ -54,7 +60,14 @@ Lemma gate_thm :
      (forall code c, In (code, c) exts -> code = dcm_meta_ecode -> check_valid c = Err EInvalidExt) ->
      wrapper_init exts false empty = Err EMissingExt).
 Proof.
-  exact (conj from_json_gate (conj from_runtime_repr_gate (conj wrapper_gate wrapper_missing))).
+  split; [|split; [|split]].
+  - intros parse s c H. destruct (from_json_gate parse s c H) as [H1 H2].
+    split; [exact H1 | split; [exact H2 | exact (accepted_meets_rules c H2)]].
+  - intros c c' H. destruct (from_runtime_repr_gate c c' H) as [H1 H2].
+    split; [exact H1 | split; [exact H2 | exact (accepted_meets_rules c H2)]].
+  - intros exts me empty i c H. destruct (wrapper_gate exts me empty i c H) as [H1 H2].
+    split; [exact H1 | split; [exact (accepted_meets_rules c H1) | exact H2]].
+  - exact wrapper_missing.
 Qed.
 
 Lemma multiplicity_thm :
